@@ -959,6 +959,9 @@ class Sim:
         self.regs = [None] * n
         self.ms = [None] * n
         self.group = list(range(n))  # alias group id per register
+        # a finer group for the coordinate and annotation buffers alone: deleting an atom gives the container arrays of
+        # its own (np.delete copies), while its box is still the one it shared before
+        self.cgroup = list(range(n))
         self.next_group = n
         self.origin = [None] * n  # 'copy' | 'derived' | 'fresh'
         self.step = -1
@@ -1485,6 +1488,7 @@ class Sim:
         if name in ("copy", "new"):
             dst = op["dst"]
             self.group[dst] = self.next_group
+            self.cgroup[dst] = self.next_group
             self.next_group += 1
             if name == "copy":
                 self.res.stats["probe:copy-made"] += 1
@@ -1497,12 +1501,25 @@ class Sim:
                 old = self.group[s]
                 self.group = [g if x == old else x for x in self.group]
             self.group[dst] = g
+            cg = self.cgroup[srcs[0]]
+            for s in srcs[1:]:
+                old = self.cgroup[s]
+                self.cgroup = [cg if x == old else x for x in self.cgroup]
+            self.cgroup[dst] = cg
+        if name == "del" and self.ms[op["r"]] is not None and self.ms[op["r"]].kind == "array":
+            # the coordinate and annotation arrays of r are fresh copies now: a later write into them (or into those of
+            # the containers r was derived from) concerns that one side only
+            self.cgroup[op["r"]] = self.next_group
+            self.next_group += 1
+            self.res.stats["probe:buffers-detached-by-atom-deletion"] += 1
         if name == "poke":
             r = op["r"]
-            others = [i for i in range(len(self.regs)) if i != r and self.group[i] == self.group[r] and self.ms[i] is not None]
+            fine = op.get("what") in ("coord", "annot")
+            grp = self.cgroup if fine else self.group
+            others = [i for i in range(len(self.regs)) if i != r and grp[i] == grp[r] and self.ms[i] is not None]
             if any(True for _ in others):
                 self.res.stats["probe:alias-group-resync"] += 1
-            self.resync_group(r)
+            self.resync_group(r, fine)
             if any(self.ms[i] is not None and self.group[i] != self.group[r] for i in range(len(self.regs)) if i != r):
                 self.res.stats["probe:copy-then-inplace-write"] += 1
         if name in ("set_atom", "set_model"):
@@ -1513,9 +1530,10 @@ class Sim:
         # object, however it was derived, may change - the other registers keep their models and are checked
         return "ok"
 
-    def resync_group(self, r):
+    def resync_group(self, r, fine=False):
+        grp = self.cgroup if fine else self.group
         for i in range(len(self.regs)):
-            if i != r and self.group[i] == self.group[r] and self.ms[i] is not None:
+            if i != r and grp[i] == grp[r] and self.ms[i] is not None:
                 st, o = call(observe, self.regs[i])
                 if st == "exc":
                     self.fail("view:raised", reg=i, got=exc_name(o))
